@@ -433,7 +433,7 @@ class CircuitCnotCount(MetricBase):
         super().__init__(log_steps=log_steps, *args, **kwargs)
         self.differentiable = False
         if n_cnot_penalty is None:
-            self.n_emitter_penalty = (
+            self.n_cnot_penalty = (
                 lambda x: x
             )  # by default, the number emitters itself
         else:
@@ -508,12 +508,13 @@ class CircuitUnitaryCount(MetricBase):
         n_u = 0
         for label in [
             "SigmaX",
-            "SigmaX",
-            "SigmaX",
+            "SigmaY",
+            "SigmaZ",
             "Phase",
             "PhaseDagger",
             "Hadamard",
             "CNOT",
+            "CZ",
         ]:
             if label in circuit.node_dict:
                 n_u += len(circuit.get_node_by_labels([label]))
